@@ -54,6 +54,7 @@ def run(chk, repo: Repo):
     chk.rule("C16-R4", "FISTA: prox(x - t*grad, t), same t; momentum only when adaptive; returns the proximal point", floor=1)
     chk.rule("C16-R5", "projections and soft-thresholding are the textbook expressions", floor=3)
     _r1(chk, repo)
+    _r1_breakdown(chk, repo)
     _r2(chk, repo)
     _r3(chk, repo)
     _r4_r5(chk, repo)
@@ -159,6 +160,28 @@ def _r1(chk, repo):
             b = b2
     chk.add("C16-R1", f"{SOLVER}:CGLS.solve/recurrences", b is not None, site(repo, cg), "Hestenes-Stiefel recurrences with shift and relative normal-residual stopping rule",
             f"CGLS recurrence changed: {msgs[fail] if b is None else ''} (`{pats[fail] if b is None else ''}` has no consistent match)", cg)
+
+
+def _r1_breakdown(chk, repo):
+    """(P)CGLS replace the curvature delta = |q|^2 (+ shift |p|^2) by machine epsilon only when it is EXACTLY zero; the two siblings agree. A threshold
+    (`delta < eps`) is not scale invariant: delta is proportional to the square of the operator's / preconditioner's scale, so a well conditioned problem
+    in other units would have its step lengths clamped."""
+    from .common import canon_fn, pmatch
+    for cls in ("CGLS", "PCGLS"):
+        ci = repo.cls(f"{SOLVER}:{cls}")
+        src = repo.method(ci, "solve")[1]
+        fn = canon_fn(repo, ci, src, 1)
+        g = CFG(fn)
+        clamps = [n for n in g.nodes if n.kind == "stmt" and isinstance(n.ast, ast.Assign) and _norm(n.ast.value) == "eps" and path_of(n.ast.targets[0])]
+        if len(clamps) != 1:
+            raise AnchorError(f"{cls}.solve: expected one `delta = eps` clamp, found {len(clamps)}")
+        d = path_of(clamps[0].ast.targets[0])
+        gs = [(_norm(t.ast), lab) for t, lab in g.guards_of(clamps[0])]
+        exact = any((tx in (f"{d}==0", f"0=={d}", f"{d}==0.0") and lab == "T") or (tx in (f"{d}!=0", f"0!={d}") and lab == "F") for tx, lab in gs)
+        thresh = [tx for tx, lab in gs if ("<" in tx or ">" in tx) and "eps" in tx and d in tx]
+        chk.add("C16-R1", f"{ci.qual}.solve/breakdown-guard", exact and not thresh, site(repo, clamps[0].ast), f"`{d} = eps` only under `{d} == 0`",
+                f"the curvature `{d}` is replaced by eps under {[tx for tx, _ in gs if d in tx]}, not only when it is exactly zero: `{d}` scales with the square of the "
+                f"operator/preconditioner, so for a differently scaled but equally well conditioned problem the step length is clamped and the iteration stagnates", clamps[0].ast)
 
 
 def _r2(chk, repo):
